@@ -163,6 +163,14 @@ def runAttempt (target : String) (fs : FS) (a : Attempt) : FS :=
 /-- a whole life of the data directory: attempts that complete and attempts that crash, in any order -/
 def runHist (target : String) (fs : FS) (as : List Attempt) : FS := as.foldl (runAttempt target) fs
 
+/-- the discipline every attempt of a history must keep, evaluated in the state it
+    starts in (decidable form of `HistOK`, C11): temp name ≠ target, and the temp
+    file is empty when written — truncating open, or a name that does not exist -/
+def histOKb (target : String) : FS → List Attempt → Bool
+  | _, [] => true
+  | fs, a :: rest =>
+    (a.tmp != target) && (a.trunc || (fs.dirNow.get a.tmp).isNone) && histOKb target (runAttempt target fs a) rest
+
 /-- all crash coordinates `(i, j, m)` of an operation sequence started in `fs0`
     (for the engines: enumeration of every crash state) -/
 def crashPoints (weak : Bool) (fs0 : FS) (ops : List Op) : List (Nat × Nat × Nat) :=
